@@ -30,6 +30,7 @@ MODULES = {
     'C16': ['contracts.c16'],
     'C13': ['contracts.c13'],
     'C10': ['contracts.c10'],
+    'C11': ['contracts.c11'],
 }
 
 EXTRACTION_DROPS = ['docstrings', 'type annotations', 'typing.cast (identity)', 'with torch.no_grad() (body kept)',
